@@ -150,6 +150,11 @@ def flag_ok(flag, last, dec_log):
 
 def run(ctx):
     prog = ctx.program
+    # constructor clause: the configuration reaches the methods unchanged (the rule builds its objects from attribute values)
+    from .common import check_ctor_verbatim
+    check_ctor_verbatim(ctx, "solver", "RandomizedSketchProjectPseudoinverse", "C13.D0.config")
+    check_ctor_verbatim(ctx, "solver", "HybridRSPNewtonSchulz", "C13.D0.config")
+    check_ctor_verbatim(ctx, "solver", "CGNEQSolver", "C13.D0.config")
     c_rsp = prog.cls("solver", "RandomizedSketchProjectPseudoinverse")
     c_hyb = prog.cls("solver", "HybridRSPNewtonSchulz")
     c_cg = prog.cls("solver", "CGNEQSolver")
